@@ -143,9 +143,7 @@ def _stack(ctx, **mk):
     from yowsup.layers.protocol_iq import YowIqProtocolLayer
     st.setProp(YowIqProtocolLayer.PROP_PING_INTERVAL, 0)
     mgr = IdealManager(ctx, **mk)
-    st.getLayer(1)._manager = mgr
-    for s in st.getLayer(2).sublayers:
-        s._manager = mgr
+    ST.wire_manager(st, mgr)
     send_layer = [s for s in st.getLayer(2).sublayers if type(s).__name__ == "AxolotlSendLayer"][0]
     recv_layer = [s for s in st.getLayer(2).sublayers if type(s).__name__ == "AxolotlReceivelayer"][0]
     return st, bottom, app, mgr, send_layer, recv_layer
